@@ -323,7 +323,8 @@ def shrink(c):
 # ---- command-line glue: a multi-alignment Phylip input must be treated as its alignments one by one (`detmulti`) ----
 MULTI_CMDS = [['consensus'], ['consensus', '--ignore-gaps'], ['compute', 'pssm', '-n', '1'], ['stats', 'char'], ['stats', 'alleles'], ['stats'],
               ['stats', '--per-sequences'], ['stats', '--per-sequences', '--ref-sequence', 'ref'], ['stats', 'char', '--per-sites'], ['stats', 'char', '--per-sequences'],
-              ['diff'], ['diff', '--counts']]
+              ['diff'], ['diff', '--counts'],
+              ['stats', 'length'], ['stats', 'nseq']]
 
 
 def check(tier, seed):
